@@ -446,6 +446,11 @@ class MahalanobisMixin(BaseMetricLearner, MetricTransformer,
       """
       u = validate_vector(u, dtype=float)
       v = validate_vector(v, dtype=float)
+      if u.shape != v.shape:
+        # (a vector of length 1 would otherwise be broadcast against the other)
+        raise ValueError("The two points should have the same number of "
+                         "features, got {} and {}.".format(u.shape[0],
+                                                           v.shape[0]))
       transformed_diff = (u - v).dot(components_T)
       dist = np.dot(transformed_diff, transformed_diff.T)
       if not squared:
